@@ -59,7 +59,7 @@ def run(ctx):
     for fn, ws in sorted(writers.items()):
         ctx.ob("R-WHO", "bytes_written-writer|%s" % fn, fn in allowed, "%s is an owner of the byte counter" % fn, ws[0][0].where(ws[0][3]),
                what="%s writes CountingWrite.bytes_written outside the reviewed owners" % fn)
-    ctx.floor("R-WHO", "owners of bytes_written", len(set(writers) & allowed), 3)
+    ctx.floor("R-WHO", "owners of bytes_written", len(set(writers) & allowed), 2)
     # (a) write(): adds the Ok payload of the inner write, returns the same result
     b = cw_write
     inner = [c for c in b.calls if re.search(r"io::Write::write$", c.fn or "")]
@@ -176,7 +176,9 @@ def counted_sink(ctx, F):
         m = re.match(r"^Add\((.*bytes_written),len\(&?\*?(\w+)\)\)$", t)
         if m and b.oname(byp[0].args[1], 3).strip("&*") == m.group(2):
             ok = True
-    ctx.ob("R-ORDER", "prefix-bypass-accounted", ok, "target.inner.write_all(prev) is paired with bytes_written += prev.len() (%s)" % how, b.where(),
+    elif not byp and not sts and not raw:
+        ok, how = True, "nothing bypasses the counting wrapper"
+    ctx.ob("R-ORDER", "prefix-bypass-accounted", ok, "the history prefix is counted: target.inner.write_all(prev) paired with bytes_written += prev.len(), or written through the wrapper (%s)" % how, b.where(),
            what="the history prefix written through the inner sink is not accounted in bytes_written (all offsets of the update would be wrong)")
     ctx.ob("R-WHO", "raw-sink-uses|IncrementalDocument::save_internal", len(raw) == len(byp), "%d use(s) of the wrapped sink, each the accounted write_all" % len(raw), b.where(raw[-1][2] if raw else None),
            what="IncrementalDocument::save_internal reaches the wrapped sink %d time(s) but only %d of them are write_all calls paired with an update of bytes_written: bytes written past the counter shift every offset of the appended section and startxref" % (len(raw), len(byp)))
